@@ -6,7 +6,7 @@ import os
 
 from vlib.common import REPO, VERIF, run_case, rng
 
-MON_FILES = [os.path.join(REPO, 'pyworkers') + os.sep, os.path.join(VERIF, 'vlib', 'vtargets.py')]
+MON_FILES = [os.path.join(REPO, 'pyworkers') + os.sep, os.path.join(VERIF, 'vlib', 'vtargets.py'), os.path.join(VERIF, 'vlib', 'vstate.py')]
 WIDE_FILES = MON_FILES  # widened in the thorough tier by callers
 
 EBP_KINDS = ('start', 'resume', 'jump', 'cret')
